@@ -87,6 +87,13 @@ def run(ctx):
         got_t = (v.requirement_indicator, v.requirement_constraint_evaluation_result.requirement_constraints_fulfilled,
                  v.requirement_constraint_evaluation_result.hints,
                  (v.format_constraint_evaluation_result.format_constraints_fulfilled, v.format_constraint_evaluation_result.error_message))
+        many = len(outs) > 1
+        own_c = False if pick[1] is None else pick[1].requirement_is_conditional
+        exp_c = True if (many and exp_f) else own_c
+        if v.requirement_constraint_evaluation_result.requirement_is_conditional != exp_c:
+            ctx.fail("conditional|" + key, desc, f"requirement_is_conditional={exp_c} (a bare indicator is unconditional; several parts make the selected fulfilled part conditional)",
+                     f"{v.requirement_constraint_evaluation_result.requirement_is_conditional}", "oracle: conditional flag of the reported part")
+            continue
         if got_t != (pick[0], exp_f, exp_h, exp_fc):
             ctx.fail("select|" + key, desc, f"{(str(pick[0]), exp_f, exp_h, exp_fc)}", f"{(str(got_t[0]),) + got_t[1:]}", "oracle: the first fulfilled part (else the last) is reported with its own outcome")
     n, bad, err = runner.run_case_files("C09", valcorr.IMPORTS, "ahb_case", "ahb_check", terms, shard=150)
